@@ -82,6 +82,9 @@ func NewHTTPTransport(cfg *HTTPTransportConfig) (*http.Transport, error) {
 		IdleConnTimeout:       cfg.IdleConnTimeout,
 		ResponseHeaderTimeout: cfg.ResponseHeaderTimeout,
 		ExpectContinueTimeout: cfg.ExpectContinueTimeout,
+		// Content codings are between the client and the origin. If enabled the transport asks for gzip on its own
+		// and strips Content-Encoding and Content-Length from the response, which is then written without framing.
+		DisableCompression: true,
 
 		ForceAttemptHTTP2: true,
 		ReadBufferSize:    32 * 1024,
